@@ -108,6 +108,7 @@ type catalog struct {
 	keys  map[string]SKey
 	certs map[string]SCert
 	cobj  map[string]*ssh.Certificate
+	index map[string]string
 }
 
 func newCatalog(ks []SKey, cs []SCert) *catalog {
@@ -119,6 +120,17 @@ func newCatalog(ks []SKey, cs []SCert) *catalog {
 	}
 	for _, x := range cs {
 		c.certs[x.Role] = x
+	}
+	// build everything now: afterwards the catalog is read-only (the scheduled worlds read it from many tasks)
+	for _, x := range cs {
+		c.cert(x.Role)
+	}
+	c.index = map[string]string{}
+	for _, k := range ks {
+		c.index[string(c.pub(k.Role).Marshal())] = k.Role
+	}
+	for _, x := range cs {
+		c.index[string(c.cert(x.Role).Marshal())] = x.Role
 	}
 	return c
 }
@@ -174,15 +186,8 @@ func (c *catalog) ident(role string, lifetime uint32, now int64) shimmodel.Ident
 
 // roleOf maps a blob back to its role ("?" when unknown).
 func (c *catalog) roleOf(blob []byte) string {
-	for r := range c.keys {
-		if string(c.pub(r).Marshal()) == string(blob) {
-			return r
-		}
-	}
-	for r := range c.certs {
-		if string(c.cert(r).Marshal()) == string(blob) {
-			return r
-		}
+	if r, ok := c.index[string(blob)]; ok {
+		return r
 	}
 	return "?"
 }
